@@ -161,6 +161,24 @@ function judgeStrings(ctx, items) {
   }
 }
 
+/** A raw `<` that cannot start a tag is text (`1 < 2`): so is `<!` that starts neither a comment nor a meta tag. */
+function judgeRawAngles(ctx) {
+  const { ge, report } = ctx
+  const texts = ['1 < 2', 'a<1', '<>', 'a< b', '1 <! 2', 'a<!>b', 'x <!- y', 'a<!', '<!1>', 'q <! -- z', '< !x', 'a<=b<!=c']
+  const src = texts.map((t) => `<x>|${t}|</x>`).join('')
+  const res = compileMany([{ id: 0, files: [['p', src]], scripts: [] }]).get(0)
+  if (!res || res.inconclusive) { report.inconc(res ? res.inconclusive : 'no result'); return }
+  if (res.panics?.length) { report.violation('compiler failed on raw angle brackets in text', { panics: res.panics }); return }
+  const { tr, error } = instantiate(ge, res.groups, 'p', {}, {})
+  if (error) { report.violation('generated code threw on raw angle brackets in text: ' + error.message, {}); return }
+  const got = tr.events.filter((e) => e.op === 'T').map((e) => e.text)
+  texts.forEach((t, j) => {
+    report.evals()
+    report.shape('raw-angle|' + t.replace(/[a-z0-9]/g, 'x'))
+    if (got[j] !== '|' + t + '|') report.violation(`static text ${JSON.stringify('|' + t + '|')} arrived as ${X.show(got[j])} (${got.length} text nodes for ${texts.length} elements)`, { text: t })
+  })
+}
+
 function judgeEntities(ctx) {
   const { ge, report } = ctx
   const names = Object.keys(ENT).sort()
@@ -244,7 +262,7 @@ export async function run(ctx) {
   const { report } = ctx
   const items = stringsFor(ctx)
   judgeStrings(ctx, items)
-  if (ctx.shard === 0) judgeEntities(ctx)
+  if (ctx.shard === 0) { judgeEntities(ctx); judgeRawAngles(ctx) }
   judgeNames(ctx)
   report.count('strings', items.length)
   report.sample({ element: '<x a="|c+succ|" b="{{ \'c+succ\' }}">|c+succ|</x>', first: items[0] && { codePoint: items[0].c, successor: SUCC[items[0].si] } }, 1)
